@@ -215,6 +215,17 @@ def check_projection(case, ctx):
         o = np.asarray(f_obj(np.array(var_in, copy=True)))
         ctx.close(o, np.asarray(res_eq.to_var() if flag else res.to_var()), 2 * tol, "closure_object_level")
 
+    # (6b) the variable-level routine on an integer-valued point given with an integer dtype and as float64: one answer
+    vi = np.round(np.asarray(var_in, dtype=float)).astype(np.int64)
+    if vi.size and int(np.max(np.abs(vi))) <= 3:
+        o_i, h_i = holder.calc_proj_physical_with_var(vi, on_para_eq_constraint=flag, is_iteration_history=True)
+        o_f, h_f = holder.calc_proj_physical_with_var(vi.astype(np.float64), on_para_eq_constraint=flag, is_iteration_history=True)
+        if len(h_i["x"]) - 1 < 1000 and len(h_f["x"]) - 1 < 1000:
+            # (to the accuracy of the stopping threshold only: for a State the implied first coefficient inserted into an
+            # integer vector is truncated, so the two runs start from different representatives of the same variables)
+            ctx.close(np.asarray(o_i, dtype=float), np.asarray(o_f, dtype=float), 2 * tol, "integer_dtype_point_same_as_float")
+            ctx.label("integer-dtype-point")
+
     # (7) history consistency (object level)
     check_history(ctx, t, hist, x, z, basis, d, m, order, eps, obj_level=True)
     last_as_var = np.asarray(holder.convert_stacked_vector_to_var(c_sys, np.asarray(vh["x"][-1], dtype=float), on_para_eq_constraint=flag))
